@@ -579,7 +579,10 @@ class Canonicalize(MPSContract):
     def where_range(self, a):
         if is_int(a.where):
             return a.where, a.where
-        return Min(a.where[0], a.where[1]), Max(a.where[0], a.where[1])
+        lo = hi = a.where[0]
+        for w in a.where[1:]:
+            lo, hi = Min(lo, w), Max(hi, w)
+        return lo, hi
 
     def reqs(self, cx, a):
         L = cx.fields(a.self)["L"]
@@ -648,3 +651,434 @@ MPSContract.methods = {
     "calc_current_orthog_center": f"{TN1DFLAT}.calc_current_orthog_center",
     "canonicalize": f"{MPS}.canonicalize",
 }
+
+
+# ------------------------------------------------------------------------------------------------
+# swaps, compress_site and the canonical-form consumers
+# ------------------------------------------------------------------------------------------------
+
+
+class Pair:
+    """Ti @ Tj of two adjacent site tensors"""
+
+    def __init__(self, mps, i, j):
+        self.mps, self.i, self.j = mps, i, j
+
+
+class Factor:
+    """a factor returned by splitting a two-site tensor: side 'L' | 'R', `iso` whether it is the isometric one"""
+
+    def __init__(self, side, iso):
+        self.side, self.iso = side, iso
+
+
+class OpaqueList:
+    truth = True
+
+
+ABSORB_ISO = {  # which factor tensor_split leaves isometric for the absorb codes the MPS routines use [leaf, C05]
+    "left": ("R",), "right": ("L",), "both": (), None: (),
+}
+
+
+def info_kinds():
+    return ("pair", "calc", "None")
+
+
+def mk_info(cx, kind):
+    if kind == "pair":
+        return {"cur_orthog": (cx.Int("c0"), cx.Int("c1"))}
+    if kind == "calc":
+        return {"cur_orthog": "calc"}
+    return {"cur_orthog": None}
+
+
+def record_reqs(cx, mps, info):
+    """a supplied pair record is in range and sound for the receiver"""
+    rec = info.get("cur_orthog") if isinstance(info, dict) else None
+    d = {}
+    if isinstance(rec, tuple):
+        L = cx.fields(mps)["L"]
+        lo, hi = Min(rec[0], rec[1]), Max(rec[0], rec[1])
+        d["record-in-range"] = And(0 <= lo, hi < L)
+        d["record-sound"] = Sound(cx, (lo, hi), mps)
+    return d
+
+
+def decorate_info(a):
+    """call-site model of @convert_cur_orthog (= the proved contract of parse_cur_orthog): the callee always sees a
+    dict; a caller that passes no `info` gets a private one, so its own record is NOT updated"""
+    opts = a.get("compress_opts") if isinstance(a.get("compress_opts"), dict) else {}
+    cur = opts.pop("cur_orthog", None) if isinstance(opts, dict) else None
+    info = a.info if isinstance(a.info, dict) else {}
+    if "cur_orthog" not in info:
+        info["cur_orthog"] = (cur, cur) if is_int(cur) else cur
+    a.info = info
+    return a
+
+
+class RecordOp(MPSContract):
+    """operations decorated with @convert_cur_orthog: `info` is always a dict holding the record"""
+
+    def record_post(self, cx, a, obj):
+        rec = a.info.get("cur_orthog") if isinstance(a.info, dict) else None
+        ok = isinstance(rec, tuple) and len(rec) == 2 and all(is_int(x) for x in rec)
+        d = {"record-is-pair": ok}
+        if ok:
+            L = cx.fields(obj)["L"]
+            lo, hi = Min(rec[0], rec[1]), Max(rec[0], rec[1])  # the library reads records through min / max
+            d["record-sound-for-the-object-the-caller-keeps"] = Sound(cx, (lo, hi), obj)
+            d["record-in-range"] = And(0 <= lo, hi < L)
+        return d
+
+    def call(self, cx, name, args, kwargs, node):
+        if name in ("._site_phys_inds", ".site_ind", ".filter_bonds", ".bonds") :
+            if name == ".filter_bonds":
+                return (cx.Opaque("shared"), cx.Opaque("unshared"))
+            return cx.Opaque(name[1:])
+        if name == "__genexp__":
+            return OpaqueList()
+        if name == ".extend" and isinstance(args[0], OpaqueList):
+            return None
+        if name in ("dict", "zip"):
+            return cx.Opaque(name)
+        if name == "set_default_compress_mode":
+            args[0].setdefault("cutoff_mode", "rel" if args[1] is True else "rsum2")
+            return None
+        if name == "__binop__" and args[0] == "MatMult" and isinstance(args[1], Site) and isinstance(args[2], Site):
+            t1, t2 = args[1], args[2]
+            cx.oblige(f"call-pre@{node.lineno}:adjacent-sites", "call-pre", And(t2.i == t1.i + 1), node.lineno)
+            return Pair(t1.mps, t1.i, t2.i)
+        if name == ".split" and isinstance(args[0], Pair):
+            absorb = kwargs.get("absorb", None)
+            if absorb not in ABSORB_ISO:
+                raise Unsupported(f"split with absorb={absorb!r}")
+            iso = ABSORB_ISO[absorb]
+            return (Factor("L", "L" in iso), Factor("R", "R" in iso))
+        if name in (".reindex_", ".transpose_like_") and isinstance(args[0], Factor):
+            return args[0]
+        if name == ".modify" and isinstance(args[0], Site) and isinstance(kwargs.get("data"), Factor):
+            site, fac = args[0], kwargs["data"]
+            f = cx.fields(site.mps)
+            hv = cx.Bool("hv")
+            if fac.side == "L":
+                f["isL"] = z3.Store(f["isL"], site.i, z3.BoolVal(bool(fac.iso)))
+                f["isR"] = z3.Store(f["isR"], site.i, hv)
+            else:
+                f["isR"] = z3.Store(f["isR"], site.i, z3.BoolVal(bool(fac.iso)))
+                f["isL"] = z3.Store(f["isL"], site.i, hv)
+            return None
+        return super().call(cx, name, args, kwargs, node)
+
+    def attr(self, cx, base, attr, node):
+        if isinstance(base, Factor) and attr == "data":
+            return base
+        return super().attr(cx, base, attr, node)
+
+
+@register
+class SwapSitesWithCompress(RecordOp):
+    target = f"{MPS}.swap_sites_with_compress"
+    floor = 12
+
+    def cases(self):
+        return [NS(name=f"inplace={ip},info={ik},absorb={ab},adjacent={adj}", inplace=ip, ik=ik, absorb=ab, adj=adj)
+                for ip in (True, False) for ik in info_kinds() for ab in ("absent", "left", "right", "both")
+                for adj in (True, False)]
+
+    def case_of_call(self, cx, a):
+        return NS(name="call", inplace=a.inplace, ik="call", absorb=a.compress_opts.get("absorb", "absent"), adj=None)
+
+    def inputs(self, cx, case):
+        mps = new_mps(cx)
+        L = cx.fields(mps)["L"]
+        i, j = cx.Int("i"), cx.Int("j")
+        info = mk_info(cx, case.ik)
+        opts = {} if case.absorb == "absent" else {"absorb": case.absorb}
+        cx.assume(And(0 <= i, i < L, 0 <= j, j < L, i != j))
+        lo, hi = Min(i, j), Max(i, j)
+        cx.assume(hi == lo + 1 if case.adj else hi > lo + 1)
+        for c in record_reqs(cx, mps, info).values():
+            cx.assume(c)
+        return dict(self=mps, i=i, j=j, info=info, inplace=case.inplace, compress_opts=opts)
+
+    def apply(self, cx, a, node, case=None):
+        a = decorate_info(a)
+        L = cx.fields(a.self)["L"]
+        cx.oblige(f"call-pre@{node.lineno}:swap_sites_with_compress:sites", "call-pre",
+                  And(0 <= a.i, a.i < L, 0 <= a.j, a.j < L, a.i != a.j), node.lineno)
+        for lab, c in record_reqs(cx, a.self, a.info).items():
+            cx.oblige(f"call-pre@{node.lineno}:swap_sites_with_compress:{lab}", "call-pre", c, node.lineno)
+        return super().apply(cx, a, node, case)
+
+    def modifies(self, a, case):
+        return [(a.self, ["isL", "isR"])] if a.inplace else []
+
+    def fresh_result(self, cx, a, case):
+        a.info["cur_orthog"] = (cx.Int("rec_a"), cx.Int("rec_b"))
+        if a.inplace:
+            return a.self
+        return new_mps(cx, "res", L=cx.fields(a.self)["L"])
+
+    def ensures(self, a, r, cx, case):
+        if not isinstance(r, Ref):
+            return {"returns-mps": False}
+        d = {"returns-receiver-iff-inplace": (r == a.self) == bool(a.inplace),
+             "length": cx.fields(r)["L"] == cx.pre(a.self)["L"]}
+        if not a.inplace:
+            d["receiver-untouched"] = unchanged_where(cx, a.self, lambda k: True)
+        d.update(self.record_post(cx, a, r))
+        return d
+
+
+@register
+class SwapSiteTo(RecordOp):
+    target = f"{MPS}.swap_site_to"
+    floor = 12
+
+    def cases(self):
+        return [NS(name=f"inplace={ip},info={ik},absorb={ab}", inplace=ip, ik=ik, absorb=ab)
+                for ip in (True, False) for ik in info_kinds() for ab in ("absent", "left", "right", "both")]
+
+    def case_of_call(self, cx, a):
+        return NS(name="call", inplace=a.inplace, ik="call", absorb=a.compress_opts.get("absorb", "absent"))
+
+    def inputs(self, cx, case):
+        mps = new_mps(cx)
+        L = cx.fields(mps)["L"]
+        i, f = cx.Int("i"), cx.Int("f")
+        info = mk_info(cx, case.ik)
+        opts = {} if case.absorb == "absent" else {"absorb": case.absorb}
+        cx.assume(And(0 <= i, i < L, 0 <= f, f < L))
+        for c in record_reqs(cx, mps, info).values():
+            cx.assume(c)
+        return dict(self=mps, i=i, f=f, info=info, inplace=case.inplace, compress_opts=opts)
+
+    def apply(self, cx, a, node, case=None):
+        a = decorate_info(a)
+        L = cx.fields(a.self)["L"]
+        cx.oblige(f"call-pre@{node.lineno}:swap_site_to:sites", "call-pre",
+                  And(0 <= a.i, a.i < L, 0 <= a.f, a.f < L), node.lineno)
+        for lab, c in record_reqs(cx, a.self, a.info).items():
+            cx.oblige(f"call-pre@{node.lineno}:swap_site_to:{lab}", "call-pre", c, node.lineno)
+        return super().apply(cx, a, node, case)
+
+    def modifies(self, a, case):
+        return [(a.self, ["isL", "isR"])] if a.inplace else []
+
+    def fresh_result(self, cx, a, case):
+        if isinstance(a.info.get("cur_orthog"), tuple):
+            pass
+        a.info["cur_orthog"] = (cx.Int("rec_a"), cx.Int("rec_b"))
+        if a.inplace:
+            return a.self
+        return new_mps(cx, "res", L=cx.fields(a.self)["L"])
+
+    def inv(self, v):
+        cx = v.cx
+        o = v.old
+        L = cx.fields(v.tn)["L"]
+        rec = v.info.get("cur_orthog")
+        d = {"same-object": (v.tn == o.self) == bool(o.inplace), "length": L == cx.pre(o.self)["L"],
+             "j-range": And(0 <= v.j, v.j < L) if False else True}
+        first = v._it0
+        # before the first adjacent swap the record is the caller's (any kind); afterwards it is a sound pair
+        if isinstance(rec, tuple) and len(rec) == 2 and all(is_int(x) for x in rec):
+            lo, hi = Min(rec[0], rec[1]), Max(rec[0], rec[1])
+            d["record-sound"] = And(Sound(cx, (lo, hi), v.tn), 0 <= lo, hi < L)
+        else:
+            d["record-kind"] = first == 0
+        if not o.inplace:
+            d["receiver-untouched"] = unchanged_where(cx, o.self, lambda k: True)
+        return d
+
+    @property
+    def loops(self):
+        return {0: Loop("for j in js", self.inv)}
+
+    def ensures(self, a, r, cx, case):
+        if not isinstance(r, Ref):
+            return {"returns-mps": False}
+        d = {"returns-receiver-iff-inplace": (r == a.self) == bool(a.inplace),
+             "length": cx.fields(r)["L"] == cx.pre(a.self)["L"]}
+        if not a.inplace:
+            d["receiver-untouched"] = unchanged_where(cx, a.self, lambda k: True)
+        rec = a.info.get("cur_orthog")
+        if isinstance(rec, tuple):
+            # (when no swap was needed the caller's record is returned as it came: sound by precondition)
+            lo, hi = Min(rec[0], rec[1]), Max(rec[0], rec[1])
+            d["record-sound-for-the-object-the-caller-keeps"] = Sound(cx, (lo, hi), r)
+            d["record-in-range"] = And(0 <= lo, hi < cx.fields(r)["L"])
+        return d
+
+
+MPSContract.methods.update({
+    "swap_sites_with_compress": f"{MPS}.swap_sites_with_compress",
+    "swap_site_to": f"{MPS}.swap_site_to",
+})
+
+
+class Consumer(RecordOp):
+    """canonical-form consumers: move the centre with canonicalize_, then contract only the local tensors.
+    Obligation `local-region-holds-the-centre`: when the local tensors [lo,hi] are read, every site left of lo is a
+    left isometry and every site right of hi a right isometry (so the rest of the chain contracts to the identity)."""
+
+    floor = 5
+
+    def local_region(self, cx, mps, lo, hi, node):
+        f = cx.fields(mps)
+        cx.oblige(f"local-region-holds-the-centre@{node.lineno}", "post",
+                  And(forall_sites(Implies(And(0 <= K, K < lo), sel(f["isL"], K))),
+                      forall_sites(Implies(And(hi < K, K < f["L"]), sel(f["isR"], K))),
+                      0 <= lo, hi < f["L"]), node.lineno)
+
+    def call(self, cx, name, args, kwargs, node):
+        if name == "__getslice__" and isinstance(args[0], Ref) and args[0].kind == "MPS":
+            mps, lo, hi, st = args
+            self.local_region(cx, mps, lo, hi - 1, node)
+            return cx.Opaque("local_tn")
+        if name in ("Tensor", "do", ".reindex", ".conj_", ".to_dense", ".contract", ".H", "qu.spin_operator",
+                    ".phys_dim", ".singular_values"):
+            return cx.Opaque(name.strip("."))
+        if name == "__binop__":
+            return cx.Opaque("binop")
+        return super().call(cx, name, args, kwargs, node)
+
+    def attr(self, cx, base, attr, node):
+        if isinstance(base, Site) and attr == "H":
+            return cx.Opaque("TkH")
+        if isinstance(base, (Opaque,)):
+            return cx.Opaque(attr)
+        return super().attr(cx, base, attr, node)
+
+    def modifies(self, a, case):
+        return [(a.self, ["isL", "isR"])]
+
+    def common_inputs(self, cx, case):
+        mps = new_mps(cx)
+        info = mk_info(cx, case.ik)
+        for c in record_reqs(cx, mps, info).values():
+            cx.assume(c)
+        return mps, info
+
+    def ensures(self, a, r, cx, case):
+        d = self.record_post(cx, a, a.self)
+        d["length"] = cx.fields(a.self)["L"] == cx.pre(a.self)["L"]
+        return d
+
+
+@register
+class SingularValues(Consumer):
+    target = f"{MPS}.singular_values"
+    raises = {"ValueError": True}
+
+    def cases(self):
+        return [NS(name=f"info={ik}", ik=ik) for ik in info_kinds()]
+
+    def inputs(self, cx, case):
+        mps, info = self.common_inputs(cx, case)
+        return dict(self=mps, i=cx.Int("i"), info=info, method="svd")
+
+    def call(self, cx, name, args, kwargs, node):
+        if name == ".bonds" and isinstance(args[0], Site) and isinstance(args[1], Site):
+            # Schmidt values across the bond (i-1, i): read from site i alone => centre must be exactly site i
+            t, tm1 = args[0], args[1]
+            cx.oblige(f"call-pre@{node.lineno}:left-neighbour", "call-pre", tm1.i == t.i - 1, node.lineno)
+            self.local_region(cx, t.mps, t.i, t.i, node)
+            return cx.Opaque("left_inds")
+        if name == ".singular_values" and isinstance(args[0], Site):
+            return cx.Opaque("svals")
+        return super().call(cx, name, args, kwargs, node)
+
+
+@register
+class Magnetization(Consumer):
+    target = f"{MPS}.magnetization"
+    raises = {"NotImplementedError": lambda a: False}
+
+    def cases(self):
+        return [NS(name=f"info={ik}", ik=ik) for ik in info_kinds()]
+
+    def inputs(self, cx, case):
+        mps, info = self.common_inputs(cx, case)
+        i = cx.Int("i")
+        cx.assume(And(0 <= i, i < cx.fields(mps)["L"]))
+        return dict(self=mps, i=i, direction="Z", info=info)
+
+    def call(self, cx, name, args, kwargs, node):
+        if name == "__getitem__" and isinstance(args[0], Ref) and args[0].kind == "MPS":
+            r = super().call(cx, name, args, kwargs, node)
+            # the expectation is taken with the single tensor at site i
+            self.local_region(cx, args[0], r.i, r.i, node)
+            return r
+        if name == ".contract" and isinstance(args[0], Site):
+            return cx.Opaque("value")
+        if name == ".reindex":
+            return cx.Opaque("Tb")
+        return super().call(cx, name, args, kwargs, node)
+
+
+@register
+class PartialTraceToDenseCanonical(Consumer):
+    target = f"{MPS}.partial_trace_to_dense_canonical"
+    raises = {"NotImplementedError": lambda a: False}
+
+    def cases(self):
+        return [NS(name=f"info={ik},where={wk},normalized={nz}", ik=ik, wk=wk, nz=nz) for ik in info_kinds()
+                for wk in ("int", "pair") for nz in (True, False)]
+
+    def inputs(self, cx, case):
+        mps, info = self.common_inputs(cx, case)
+        L = cx.fields(mps)["L"]
+        if case.wk == "int":
+            where = cx.Int("w")
+            cx.assume(And(0 <= where, where < L))
+        else:
+            where = (cx.Int("w0"), cx.Int("w1"))
+            cx.assume(And(0 <= where[0], where[0] < L, 0 <= where[1], where[1] < L))
+        return dict(self=mps, where=where, normalized=case.nz, info=info, contract_opts={})
+
+    def call(self, cx, name, args, kwargs, node):
+        if name == "__binop__" and args[0] == "BitOr":
+            return cx.Opaque("rho_tn")
+        return super().call(cx, name, args, kwargs, node)
+
+
+@register
+class CompressSite(Consumer):
+    """compress_site(i): canonicalize around i, then left/right compress the neighbouring bonds towards i
+    [leaf: tensor_compress_bond(tl, tr, absorb) leaves the non-absorbing tensor isometric towards the other]"""
+
+    target = f"{MPS}.compress_site"
+
+    def cases(self):
+        return [NS(name=f"info={ik},canonize={c}", ik=ik, canonize=c) for ik in info_kinds() for c in (True,)]
+
+    def inputs(self, cx, case):
+        mps, info = self.common_inputs(cx, case)
+        i = cx.Int("i")
+        cx.assume(And(0 <= i, i < cx.fields(mps)["L"]))
+        return dict(self=mps, i=i, canonize=case.canonize, info=info, bra=None, compress_opts={})
+
+    def call(self, cx, name, args, kwargs, node):
+        if name in (".left_compress_site", ".right_compress_site") and isinstance(args[0], Ref):
+            mps, k = args[0], args[1]
+            f = cx.fields(mps)
+            L = f["L"]
+            if name == ".left_compress_site":
+                # sites k, k+1: k becomes left isometric, k+1 absorbs
+                cx.oblige(f"call-pre@{node.lineno}:left_compress_site:range", "call-pre", And(0 <= k, k + 1 < L), node.lineno)
+                f["isL"] = z3.Store(z3.Store(f["isL"], k, True), k + 1, cx.Bool("hv"))
+                f["isR"] = z3.Store(z3.Store(f["isR"], k, cx.Bool("hv")), k + 1, cx.Bool("hv"))
+            else:
+                cx.oblige(f"call-pre@{node.lineno}:right_compress_site:range", "call-pre", And(1 <= k, k < L), node.lineno)
+                f["isR"] = z3.Store(z3.Store(f["isR"], k, True), k - 1, cx.Bool("hv"))
+                f["isL"] = z3.Store(z3.Store(f["isL"], k, cx.Bool("hv")), k - 1, cx.Bool("hv"))
+            return None
+        return super().call(cx, name, args, kwargs, node)
+
+
+MPSContract.methods.update({
+    "singular_values": f"{MPS}.singular_values", "compress_site": f"{MPS}.compress_site",
+    "partial_trace_to_dense_canonical": f"{MPS}.partial_trace_to_dense_canonical",
+})
